@@ -554,6 +554,10 @@ def run(ctx):
     # ---- 5b. scale tier -----------------------------------------------------------------------------------------------
     scale_tier(ctx, col, flags, procs)
 
+    # ---- 5c. the command line front end (spec/query/QueryCli.tla) -------------------------------------------------------
+    from .. import querycli
+    querycli.phase(ctx, flags, "c06", procs)
+
     # ---- 6. binding self-test --------------------------------------------------------------------------------
     # (a) a corrupted expectation is noticed by the comparison; (b) a corrupted recorded answer is rejected by TLC
     ln = json.loads(json.dumps(next(l for l in glines if len(l["corpus"]) == 2)))
@@ -571,8 +575,8 @@ def run(ctx):
         c["sub"], c["single"] = [], []
         corrupted.append(c)
     cv = judge(ctx, corrupted, flags, "selftest")
-    ctx.cov["binding_selftest"] = {"corrupted_expected_mask_detected": any(b[0] == (ln["fidx"] or list(range(1, len(gfilters) + 1)))[k0] for b in res["bad"]),
-                                   "corrupted_recorded_ids_rejected_by_TLC": "%d/%d" % (sum(1 for v in cv if v["explain"] == "unexplained"), len(cv))}
+    ctx.cov["binding_selftest"] = dict(ctx.cov.get("binding_selftest") or {}, **{"corrupted_expected_mask_detected": any(b[0] == (ln["fidx"] or list(range(1, len(gfilters) + 1)))[k0] for b in res["bad"]),
+                                   "corrupted_recorded_ids_rejected_by_TLC": "%d/%d" % (sum(1 for v in cv if v["explain"] == "unexplained"), len(cv))})
     col.finish()
     if not ctx.cov["binding_selftest"]["corrupted_expected_mask_detected"] or any(v["explain"] != "unexplained" for v in cv):
         if not ctx.violations:      # on a tree that already violates the property the self-test's own premises may not hold
@@ -581,6 +585,9 @@ def run(ctx):
 
 
 def replay(ctx, data):
+    if data.get("check") == "cli":
+        from .. import querycli
+        return querycli.replay(ctx, data)
     jobs = [tuple(j) for j in data["corpus"]]
     sb = Q.Sandbox(ctx.mkdtemp("replay"), jobs)
     if data.get("scale"):
